@@ -10,6 +10,7 @@ import (
 	"fmt"
 	"io"
 	"log"
+	"math"
 	"net"
 	"os"
 	"slices"
@@ -74,6 +75,11 @@ const (
 	// connection is closed, preventing stalled clients from holding
 	// goroutines indefinitely.
 	connReadTimeout = 30 * time.Second
+
+	// maxCommandSize is the largest length prefix the service will accept for
+	// an incoming Command. Protobuf cannot marshal a message larger than 2GiB,
+	// so a larger length can only come from a broken or hostile peer.
+	maxCommandSize = math.MaxInt32
 
 	// maxConcurrentConns bounds the number of connections the service handles
 	// concurrently, preventing connection floods from spawning unbounded goroutines.
@@ -377,17 +383,24 @@ func (s *Service) handleConn(conn net.Conn) {
 			return
 		}
 		sz := binary.LittleEndian.Uint64(b[0:])
+		if sz > maxCommandSize {
+			// No marshaled Command can be this large, so this is not a
+			// well-formed request.
+			return
+		}
 
-		p := make([]byte, sz)
 		if s.connTimeout > 0 {
 			if err := conn.SetReadDeadline(time.Now().Add(s.connTimeout)); err != nil {
 				return
 			}
 		}
-		_, err = io.ReadFull(conn, p)
-		if err != nil {
+		// Read through a growing buffer, so the memory used is a function of
+		// the bytes actually received, not of the length the peer claims.
+		var buf bytes.Buffer
+		if _, err := io.CopyN(&buf, conn, int64(sz)); err != nil {
 			return
 		}
+		p := buf.Bytes()
 
 		c := &proto.Command{}
 		err = pb.Unmarshal(p, c)
